@@ -15,8 +15,4 @@ def varDimsStrRefused (n : Int) : Bool := (decide (n ≠ (1 : Int)))
 -- gen/prepare.py : parse_cases — `isinstance(cases[0], str) or not isiterable(cases[0])`
 def casesWrapBare (firstIsStr firstIsIterable : Bool) : Bool := (firstIsStr || (!firstIsIterable))
 
--- gen/prepare.py : parse_combo_results — `var_names is not None and (isinstance(var_names, str) or len(var_names) == 1)`
-def comboResultsWrap (namesIsNone namesIsStr : Bool) (n : Int) : Bool :=
-  ((!namesIsNone) && (namesIsStr || (decide (n = (1 : Int)))))
-
 end Gen.Default
